@@ -8,7 +8,61 @@ import (
 
 // C11: independent trees sharing a store and a node cache, used from different goroutines.
 // The runner adds -race for this test; a report of the race detector is a violation.
+// bPublishCache checks every node at the moment it becomes visible to other trees: it must already
+// be marked shared and clean, or a tree that finds it there would write into it in place.
+type bPublishCache struct {
+	NodeCache
+	mu  sync.Mutex
+	bad []string
+}
+
+func (c *bPublishCache) Add(key, value interface{}) {
+	if n, ok := value.(*mastNode); ok && (!n.shared || n.dirty) {
+		c.mu.Lock()
+		c.bad = append(c.bad, fmt.Sprintf("%v (shared=%v dirty=%v, %d keys, %d links)", key, n.shared, n.dirty, len(n.Key), len(n.Link)))
+		c.mu.Unlock()
+	}
+	c.NodeCache.Add(key, value)
+}
+
+func bPublishOrder(t *testing.T) {
+	for _, nf := range bFormats {
+		for _, bf := range []uint{2, 4, 16} {
+			st := newBStore("mem://publish")
+			model := map[int]int{}
+			for i := 0; i < 60; i++ {
+				model[i*3] = i % 3
+			}
+			w := &bPublishCache{NodeCache: NewNodeCache(1000)}
+			m, err := bBuild(bf, nf, st, model, 0, false)
+			if err != nil {
+				continue
+			}
+			m.nodeCache = w
+			root, err := m.MakeRoot(bctx)
+			if err != nil {
+				continue
+			}
+			if len(w.bad) > 0 {
+				bViolation(t, "C11", "published-unmarked-flush", "bf=%d nf=%s: persisting put %d nodes into the shared cache before marking them shared and clean, e.g. %s", bf, nf, len(w.bad), w.bad[0])
+			}
+			cold := &bPublishCache{NodeCache: NewNodeCache(1000)}
+			m2, err := root.LoadMast(bctx, bCfg(st, cold))
+			if err != nil {
+				continue
+			}
+			if msg := bCompare(m2, model, 181); msg != "" {
+				bViolation(t, "C11", "cold-cache-contents", "bf=%d nf=%s: %s", bf, nf, msg)
+			}
+			if len(cold.bad) > 0 {
+				bViolation(t, "C11", "published-unmarked-load", "bf=%d nf=%s: loading put %d nodes into the shared cache before marking them shared and clean, e.g. %s", bf, nf, len(cold.bad), cold.bad[0])
+			}
+		}
+	}
+}
+
 func TestBounded_C11(t *testing.T) {
+	bPublishOrder(t)
 	rounds := 30
 	steps := 120
 	if bTier() == "thorough" {
